@@ -52,8 +52,8 @@ def xyzStepO (v : Variant) (s : XSt × Nat) (line : Line) : Res (XSt × Nat) (Li
 
 /-- one iteration of `lammpstrj_reader` with `previous_position`: assigned when a frame is appended and
     in the late-newline skip (the only `return` that has moved `current_position`) -/
-def lmpStepO (s : LSt × Nat) (line : Line) : Res (LSt × Nat) (List LFrame × RP) :=
-  match lmpStep s.1 line with
+def lmpStepO (v : Variant) (s : LSt × Nat) (line : Line) : Res (LSt × Nat) (List LFrame × RP) :=
+  match lmpStep v s.1 line with
   | .cont st' => .cont (st', if st'.traj.length = s.1.traj.length then s.2 else s.1.pos)
   | .ret r => .ret (r.1, ⟨r.2, if r.2 = s.1.pos then s.2 else s.1.pos⟩)
   | .err e => .err e
@@ -63,9 +63,9 @@ def xyzReaderO (v : Variant) (content : List Char) (o : RP) : Except Err (List X
   finish (fun s => (s.1.traj, (⟨s.1.pos, s.2⟩ : RP)))
     (resRun (xyzStepO v) (lines (content.drop o.cur)) (xInit o.cur, o.prev))
 
-def lmpReaderO (content : List Char) (o : RP) : Except Err (List LFrame × RP) :=
+def lmpReaderO (v : Variant) (content : List Char) (o : RP) : Except Err (List LFrame × RP) :=
   finish (fun s => (s.1.traj, (⟨s.1.pos, s.2⟩ : RP)))
-    (resRun lmpStepO (lines (content.drop o.cur)) (lInit o.cur, o.prev))
+    (resRun (lmpStepO v) (lines (content.drop o.cur)) (lInit o.cur, o.prev))
 
 /-- `read_and_process_content()`: `none` = the file does not exist (`FileNotFoundError` → `[]`, nothing
     moves); otherwise open, `seek(current_position)`, run the processing function -/
